@@ -61,6 +61,14 @@ def _keys_atom(p, is_subject, consts, universe):
                 return None
             acc |= k
         return frozenset(acc)
+    if isinstance(p, ast.Compare) and len(p.ops) == 2 and universe is not None and is_subject(p.comparators[0]):
+        lo = _const(p.left, consts)
+        hi = _const(p.comparators[1], consts)
+        if isinstance(lo, int) and isinstance(hi, int) and all(isinstance(o, (ast.Lt, ast.LtE)) for o in p.ops):
+            lo2 = lo if isinstance(p.ops[0], ast.LtE) else lo + 1
+            hi2 = hi if isinstance(p.ops[1], ast.LtE) else hi - 1
+            return frozenset(u for u in universe if isinstance(u, int) and lo2 <= u <= hi2)
+        return None
     if isinstance(p, ast.Compare) and len(p.ops) == 1:
         l, op, r = p.left, p.ops[0], p.comparators[0]
         if isinstance(op, ast.Eq):
